@@ -84,8 +84,6 @@ def run(pid, tier, replay, prefixes, models, gens, level_rule, keyfn=None, extra
         script = json.loads(scripts[sc])
         trace = [x for x in rows if x["sc"] == sc]
         verdict.fail(key, {"clause": clause, "detail": detail, "trace_line": line, "script": script, "trace": trace[:400]})
-    for k in spins:
-        verdict.fail("C15_Quiesces:spin", {"script": json.loads(scripts[k])}) if "C15_" in prefixes or "C13_" in prefixes else None
     nq = sum(1 for r in rows if r["ev"] == "Quiesce")
     ev = {
         "tier": tier, "level": "model_checking",
